@@ -5,6 +5,7 @@ package device
 // Contracts for the deductive checker in /verif (comment-only file).
 
 //vc:func ApproveOrCompare
+//vc:  requires[C12] @deviceOnlyUnderLock lockHeld
 //vc:  init isCompareRun = isCompare
 //vc:  init nameChecked = false
 //vc:  init markerMissing = false
@@ -44,3 +45,11 @@ package device
 //vc:  init devFailure = false
 //vc:  assign at "No changes applied" changesConfirmed = true
 //vc:  ensures[C09] @nilOnlyIfConfirmed result == nil ==> changesConfirmed
+
+// C12: exclusive non-blocking flock on basedir/lock/<basename of device>
+//vc:func SetLock
+//vc:  set lockHeld = result1 == nil
+//vc:  set lockFileRef = result0
+//vc:  ensures[C12] lockHeld == (result1 == nil) && lockFileRef == result0
+//vc:  ensures[C12] @lockedOnSuccess result1 == nil ==> result0 != nil && flocked(result0)
+//vc:  ensures[C12] @lockFileIsPerDeviceBasename lockFile == pathJoin(lockDir, path.Base(fname)) && lockDir == pathJoin(cfg.BaseDir, "lock")
